@@ -210,6 +210,23 @@ def _fn_paths(world, table, rule, fn: ast.FunctionDef, owner: ClassInfo | None, 
                     sub = _fn_paths(world, table, rule, parent_fn, parent_owner, name, depth + 1)
                     normal = [s for s in sub if s[1].exit in ('fall', 'return')]
                     inherited = [a | s[0] for a in inherited for s in normal]
+                elif (
+                    isinstance(st, ast.Expr)
+                    and isinstance(st.value, ast.Call)
+                    and isinstance(st.value.func, ast.Attribute)
+                    and isinstance(st.value.func.value, ast.Name)
+                    and st.value.func.value.id == self_name
+                    and len(st.value.args) == 2
+                    and not st.value.keywords
+                    and [subst(term(a, env), ren) for a in st.value.args] == [LEFT, RIGHT]
+                    and (helper := table.resolve(rule, st.value.func.attr)) is not None
+                    and isinstance(helper.node, ast.FunctionDef)
+                    and len(helper.node.args.args) == 3
+                ):
+                    # self.<helper>(left, right) as a statement: execution continues only on the helper's normal paths
+                    sub = _fn_paths(world, table, rule, helper.node, helper.owner, st.value.func.attr, depth + 1)
+                    normal = [s for s in sub if s[1].exit in ('fall', 'return')]
+                    inherited = [a | s[0] for a in inherited for s in normal]
                 else:
                     env = path_env(Path([ev]), env)
             elif ev[0] == 'iter':
